@@ -28,7 +28,8 @@ import vlib
 
 THEOREMS = ["Yardl.C08.derived_identifier_never_reserved", "Yardl.C08.cpp_suffixes_escape", "Yardl.C08.python_suffix_escapes",
             "Yardl.C08.matlab_suffix_escapes", "Yardl.C08.tables_cover_the_languages", "Yardl.C08.cpp_field_never_reserved",
-            "Yardl.C08.python_member_never_reserved", "Yardl.C08.matlab_member_never_reserved"]
+            "Yardl.C08.python_member_never_reserved", "Yardl.C08.matlab_member_never_reserved", "Yardl.C08.cpp_type_suffix_escapes",
+            "Yardl.C08.cpp_types_table_covers", "Yardl.C08.cpp_type_never_reserved", "Yardl.C08.tables_cover_generated_code_names"]
 
 
 def run(report, tier, seed):
@@ -53,6 +54,7 @@ def run(report, tier, seed):
         jobs = []
         jobs += list(known_finding_witnesses(sc))
         jobs += list(cross_packages(sc, quick))
+        jobs += list(runtime_name_packages(sc, ybin, report))
         jobs += list(name_packages(sc, reserved, rng, quick))
         jobs += list(matrix_packages(sc, rng, seed, 3 if quick else 24, quick))
         jobs += list(init_scaffolds(sc, ybin, quick))
@@ -85,7 +87,7 @@ def identifiers(report, inproc, lean, reserved, rng, n_random):
     spec = [("cppField", "cpp", "_field", "snake"), ("pyField", "python", "_", "snake"), ("matlabField", "matlab", "_", "snake"),
             ("pyEnumValue", "python", "_", "upperSnake"), ("matlabEnumValue", "matlab", "_", "upperSnake"),
             ("cppComputed", "cpp", "_field", "pascal"), ("pyComputed", "python", "_", "snake"),
-            ("cppType", "cpp", "_Type", "name"), ("pyType", "python", "_", "name"), ("matlabType", "matlab", "_", "name")]
+            ("cppType", "cpp_types", "_Type", "name"), ("pyType", "python", "_", "name"), ("matlabType", "matlab", "_", "name")]
     for r in rows:
         for key, lang, suffix, cased_key in spec:
             cased = r[cased_key]
@@ -108,8 +110,9 @@ def identifiers(report, inproc, lean, reserved, rng, n_random):
 # ------------------------------------------------------------------------------ jobs
 
 class Job:
-    def __init__(self, kind, root, pkg=None, manifest_extra="", compile_cpp=False, ndjson=True, prebuilt=None, model_text=None, namespace="Ns"):
+    def __init__(self, kind, root, pkg=None, manifest_extra="", compile_cpp=False, ndjson=True, prebuilt=None, model_text=None, namespace="Ns", exercise=False):
         self.kind, self.root, self.pkg, self.manifest_extra = kind, root, pkg, manifest_extra
+        self.exercise = exercise    # Python: also construct, print, compare and round-trip default values (pynames_exercise.py)
         self.compile_cpp, self.ndjson, self.prebuilt, self.model_text, self.namespace = compile_cpp, ndjson, prebuilt, model_text, namespace
 
 
@@ -143,6 +146,186 @@ def matrix_packages(sc, rng, seed, n, quick):
                       compile_cpp=(oname == "cpp-ndjson-override") or (oname == "cpp-minimal" and not quick), ndjson=(oname == "cpp-ndjson-override"))
 
 
+# Names the generated code uses itself (module aliases, parameters, locals, helper methods and classes) are in no reserved
+# table unless the generator put them there. They are harvested from what the current generator emits for a probe package
+# with neutral names, turned back into the member names that would be converted into them, and every one of them is then
+# used as a field, computed field, enum / flags symbol, union tag and protocol step (directed: all of them on every tier).
+PROBE_MODEL = """QqSym: !enum
+  values: [qqa, qqb]
+QqFlg: !flags
+  values: [qqa, qqb]
+QqRec: !record
+  fields:
+    qqa: int
+    qqb: !array {items: float, dimensions: 2}
+    qqc: datetime
+    qqd: QqSym
+    qqe: string*
+    qqf: [int, string]
+    qqg: int?
+    qqh: string->int
+    qqi: !vector {items: int, length: 2}
+    qqj: QqFlg
+    qqk: !array {items: QqSym}
+    qql: [null, int, string]
+  computedFields:
+    qqm: qqa + 1
+    qqn: size(qqb)
+    qqo:
+      !switch qqg:
+        int i: i
+        _: 0
+    qqp:
+      !switch qqf:
+        int i: i as float64
+        string s: 1.0
+QqGen<QqT>: !record
+  fields:
+    qqa: QqT
+    qqb: QqT[]
+QqAlias: QqGen<int>
+QqUnion: !union {qqa: int, qqb: string}
+QqProto: !protocol
+  sequence:
+    qqa: int
+    qqb: !stream {items: QqRec}
+    qqc: QqAlias
+    qqd: QqUnion?
+    qqe: !stream {items: [int, QqRec]}
+"""
+
+RUNTIME_FIELD_TYPES = ["int", "!array {items: float, dimensions: 2}", "datetime", "QqSym", "string*", "[int, string]", "int?", "string->int",
+                       "!vector {items: int, length: 2}", "date", "time", "QqRec", "!array {items: int, dimensions: [2]}", "complexdouble", "QqFlg", "float[]",
+                       "[null, int, string]", "QqRec?", "QqSym*", "bool"]
+RUNTIME_EXPRESSIONS = ['"qqx + 1"', '"size(qqarr)"', '"qqx as float64"', '"size(qqv)"', '"dimensionCount(qqarr)"', '"qqs"', '"qqx * 2 - 1"',
+                       "\n      !switch qqo:\n        int i: i + qqx\n        _: qqx", "\n      !switch qqu:\n        int i: i - qqx\n        string s: qqx"]
+
+
+DERIVED_SUFFIXES = ("Impl", "Converter", "Serializer", "UnionCase", "Reader", "Writer", "ReaderBase", "WriterBase")
+# type names kept out of the directed list (they are in the witness of the open finding): a type `Union` gets the C++ serializer
+# functions ReadUnion / WriteUnion, the names of the file-local helpers for unions; an enum `ProtocolError` is shadowed in the
+# generated Python protocols module by the runtime exception of that name
+FILE_LOCAL_HELPERS = ("ReadUnion", "WriteUnion", "Union", "ProtocolError")
+
+
+def _camel_lower(w):
+    parts = [p for p in re.split(r"_+", w) if p]
+    return (parts[0].lower() + "".join(p[:1].upper() + p[1:].lower() for p in parts[1:])) if parts else ""
+
+
+def _strip_comments(text, fn):
+    if fn.endswith(".py"):
+        text = re.sub(r'"""[\s\S]*?"""', "", text)
+        return re.sub(r"#[^\n]*", "", text)
+    if fn.endswith(".m"):
+        return re.sub(r"%[^\n]*", "", text)
+    text = re.sub(r"/\*[\s\S]*?\*/", "", text)
+    return re.sub(r"//[^\n]*", "", text)
+
+
+def harvest_runtime_names(ybin, sc):
+    """-> sorted member names (camelCase) whose converted form is an identifier the generated code of the probe package uses"""
+    root = sc.path("probe")
+    pdir = os.path.join(root, "pkg")
+    os.makedirs(pdir, exist_ok=True)
+    open(os.path.join(pdir, "_package.yml"), "w").write("namespace: QqProbe\n" + OPTION_SETS[2][1] + "matlab:\n  outputDir: ../out_matlab\n")
+    open(os.path.join(pdir, "model.yml"), "w").write(PROBE_MODEL)
+    rc, out, err = vlib.yardl(ybin, pdir, "generate")
+    if rc != 0:
+        return None, (out + err)[-2000:]
+    ids = set()
+    for dp, dns, fns in os.walk(root):
+        rel = os.path.relpath(dp, root)
+        if rel.startswith(os.path.join("out_cpp", "yardl")) or "+yardl" in rel or rel.startswith("pkg"):
+            continue    # the static runtime has its own scopes; only its namespace / module names reach generated code (and those occur there)
+        for fn in fns:
+            if not fn.endswith((".py", ".h", ".cc", ".m")) or (fn.startswith("_") and fn != "__init__.py") or fn == "yardl_types.py":
+                continue
+            ids |= set(re.findall(r"[A-Za-z_][A-Za-z0-9_]*", _strip_comments(open(os.path.join(dp, fn), errors="replace").read(), fn)))
+    cands = set()
+    for i in ids:
+        if "qq" in i.lower():
+            continue
+        if re.fullmatch(r"_*[a-z][a-z0-9_]*", i):
+            cands.add(_camel_lower(i))                               # snake_case members (fields, Python computed fields, step methods)
+        if re.fullmatch(r"[A-Z][A-Za-z0-9]*", i):
+            cands.add(i[0].lower() + i[1:])                   # PascalCase members (C++ computed fields, union case classes)
+        if re.fullmatch(r"k[A-Z][A-Za-z0-9]*", i):
+            cands.add(i[1].lower() + i[2:])                   # C++ enum values
+        if re.fullmatch(r"[A-Z][A-Z0-9_]*", i):
+            cands.add(_camel_lower(i.lower()))                       # Python enum values
+    seen, names = set(), []
+    for c in sorted(cands):
+        key = c.lower()
+        if re.fullmatch(r"[a-z][a-zA-Z0-9]{0,40}", c) and key not in seen:
+            seen.add(key)
+            names.append(c)
+    tnames = sorted(i for i in ids if re.fullmatch(r"[A-Z][A-Za-z0-9]{0,40}", i) and "qq" not in i.lower())
+    # a name that is another name of the same list plus a suffix the generator appends (step `x` has a C++ method XImpl, type `X` a
+    # Python class XConverter) collides with what is derived from that other name, and a type named like a file-local helper of the
+    # generated C++ hides it: one open finding with its own witness (`witness:derived-names`), kept out of the directed lists
+    names = [n for n in names if not any(n.endswith(sfx) and n[:-len(sfx)] in seen for sfx in DERIVED_SUFFIXES)]
+    tset = set(tnames)
+    tnames = [n for n in tnames if not any(n.endswith(sfx) and n[:-len(sfx)] in tset for sfx in DERIVED_SUFFIXES) and n not in FILE_LOCAL_HELPERS]
+    return (names, tnames), ""
+
+
+def runtime_type_model(chunk, shift=0):
+    q = json.dumps      # `True`, `False`, ... are names like any other once quoted
+    t, steps = [], []
+    for i, n in enumerate(chunk):
+        k = (i + shift) % 4
+        if k == 0:
+            t.append(f"{q(n)}: !record\n  fields:\n    qqa: int\n    qqb: string?\n")
+        elif k == 1:
+            t.append(f"{q(n)}: !enum\n  values: [qqa, qqb]\n")
+        elif k == 2:
+            t.append(f"{q(n)}: !union {{qqa: int, qqb: string*}}\n")
+        else:
+            t.append(f"{q(n)}: !array {{items: float, dimensions: 2}}\n")
+        steps.append(f"    s{i}: " + (q(n) if i % 2 else "!stream {items: " + q(n) + "}") + "\n")
+    t.append("QqG<QqT>: !record\n  fields:\n    qqa: QqT\n    qqb: QqT[]\n")
+    t.append("QqHolds: !record\n  fields:\n" + "".join(f"    f{i}: {q(n)}\n" for i, n in enumerate(chunk)) + "    g: QqG<int>\n")
+    t.append("QqSteps: !protocol\n  sequence:\n" + "".join(steps) + "    h: QqHolds\n")
+    return "\n".join(t)
+
+
+def runtime_model(chunk):
+    q = json.dumps      # `null`, `true`, `on`, ... are names like any other once quoted
+    ft = lambda i: RUNTIME_FIELD_TYPES[i % len(RUNTIME_FIELD_TYPES)]
+    t = ["QqSym: !enum\n  values: [" + ", ".join(q(w) for w in chunk) + "]\n",
+         "QqFlg: !flags\n  base: uint64\n  values: [" + ", ".join(q(w) for w in chunk[:60]) + "]\n",
+         "QqRec: !record\n  fields:\n    qqa: int\n",
+         "QqFields: !record\n  fields:\n" + "".join(f"    {q(w)}: {ft(i) if ft(i)[0] in '![' else q(ft(i))}\n" for i, w in enumerate(chunk)),
+         "QqComputed: !record\n  fields:\n    qqx: int\n    qqarr: float[]\n    qqv: int*\n    qqo: int?\n    qqu: [int, string]\n    qqs: string\n  computedFields:\n"
+         + "".join(f"    {q(w)}: {RUNTIME_EXPRESSIONS[i % len(RUNTIME_EXPRESSIONS)]}\n" for i, w in enumerate(chunk)),
+         "QqTags: !union\n" + "".join(f"  {q(w)}: !vector {{items: int, length: {i + 1}}}\n" for i, w in enumerate(chunk)),
+         "QqHolds: !record\n  fields:\n    t: QqTags\n    f: QqFields\n    s: QqSym\n    c: QqComputed\n",
+         "QqSteps: !protocol\n  sequence:\n" + "".join(f"    {q(w)}: " + ("int" if i % 2 else "!stream {items: int}") + "\n" for i, w in enumerate(chunk))
+         + "    qqholds: !stream {items: QqHolds}\n"]
+    return "\n".join(t)
+
+
+def runtime_name_packages(sc, ybin, report):
+    harvested, err = harvest_runtime_names(ybin, sc)
+    names, tnames = harvested if harvested is not None else (None, None)
+    if names is None:
+        report.violation("harness:probe-package", {"theorem_or_correspondence": "C08 probe package for the generator's own identifiers", "output": err}, "no-failing-input-found")
+        return
+    report.count("names.runtime-identifiers-harvested", len(names))
+    report.count("names.runtime-type-identifiers-harvested", len(tnames))
+    report.extra["runtime_names"] = names
+    report.extra["runtime_type_names"] = tnames
+    for ci in range(0, len(tnames), 40):
+        yield Job(f"names:runtime-types-{ci // 40}", sc.path(f"n-runtime-t{ci // 40}"), model_text=runtime_type_model(tnames[ci:ci + 40]), manifest_extra=OPTION_SETS[2][1],
+                  compile_cpp=True, ndjson=True, namespace="RtNames", exercise=True)
+    size = 45
+    for ci in range(0, len(names), size):
+        chunk = names[ci:ci + size]
+        yield Job(f"names:runtime-{ci // size}", sc.path(f"n-runtime-{ci // size}"), model_text=runtime_model(chunk), manifest_extra=OPTION_SETS[2][1],
+                  compile_cpp=True, ndjson=True, namespace="RtNames", exercise=True)
+
+
 def name_packages(sc, reserved, rng, quick):
     """reserved words of every target in every name position"""
     P = lambda n: ("prim", n)
@@ -173,11 +356,13 @@ def name_packages(sc, reserved, rng, quick):
     for ci, chunk in enumerate(tchunks):
         pkg = modelgen.Package("TypeNames")
         for i, t in enumerate(chunk):
-            kind = i % 3
+            kind = i % 4
             if kind == 0:
                 pkg.defs.append({"kind": "record", "name": t, "tparams": [], "fields": [("a", P("int32"))]})
             elif kind == 1:
                 pkg.defs.append({"kind": "enum", "name": t, "flags": False, "base": None, "auto": True, "values": [("a", 0), ("b", 1)]})
+            elif kind == 3:
+                pkg.defs.append({"kind": "alias", "name": t, "tparams": [], "type": ("union", True, [("ua", P("int32")), ("ub", P("string"))])})
             else:
                 pkg.defs.append({"kind": "alias", "name": t, "tparams": [], "type": ("vec", P("float32"), None)})
         pkg.defs.append({"kind": "protocol", "name": "UsesThem", "steps": [(f"s{i}", ("named", t, []), i % 2 == 0) for i, t in enumerate(chunk)]})
@@ -290,6 +475,32 @@ def cross_packages(sc, quick):
     yield Job("cross:same-namespace", sc.path("cross-one"), pkg=one, manifest_extra=OPTION_SETS[2][1], compile_cpp=not quick, ndjson=True, namespace="CrossOne")
 
 
+DERIVED_NAMES_MODEL = """Union: !union {qqa: int, qqb: string*}
+ProtocolError: !enum
+  values: [qqa, qqb]
+Optional: !record
+  fields:
+    qqa: int
+OptionalConverter: !record
+  fields:
+    qqa: int
+Same: !record
+  fields:
+    x: int
+  computedFields:
+    same: x + 1
+QqSteps: !protocol
+  sequence:
+    close: int
+    closeImpl: int
+    u: Union
+    e: ProtocolError
+    o: Optional
+    oc: OptionalConverter
+    s: Same
+"""
+
+
 def known_finding_witnesses(sc):
     """minimal packages for the open findings of this property: they run on every tier"""
     P = lambda n: ("prim", n)
@@ -311,6 +522,7 @@ def known_finding_witnesses(sc):
     pkg = modelgen.Package("Kf3")
     pkg.defs.append({"kind": "record", "name": "G", "tparams": ["T"], "fields": [("a", ("arr", ("arr", ("opt", ("tparam", "T")), ("fixed", [2], None)), ("rank", 1, None)))]})
     pkg.defs.append({"kind": "protocol", "name": "P", "steps": [("a", ("vec", ("named", "G", [P("int32")]), None), False)]})
+    yield Job("witness:derived-names", sc.path("kf-derived"), model_text=DERIVED_NAMES_MODEL, manifest_extra=OPTION_SETS[2][1], compile_cpp=True, ndjson=True, namespace="Kf5")
     yield Job("witness:type-parameter-only-in-array", sc.path("kf-array"), pkg=pkg, manifest_extra=OPTION_SETS[4][1], namespace="Kf3")
 
 
@@ -342,6 +554,11 @@ def build_job(ybin, j):
                 # xtensor is not installed here: compile the scaffold against the stand-in array header
                 man = re.sub(r"^cpp:\n", "cpp:\n  overrideArrayHeader: vf_ndarray.h\n  generateHDF5: false\n", man, count=1, flags=re.M)
                 open(os.path.join(pdir, "_package.yml"), "w").write(man)
+        elif j.model_text is not None:
+            pdir = os.path.join(j.root, "pkg_" + j.namespace)
+            os.makedirs(pdir, exist_ok=True)
+            open(os.path.join(pdir, "_package.yml"), "w").write(f"namespace: {j.namespace}\n" + j.manifest_extra)
+            open(os.path.join(pdir, "model.yml"), "w").write(j.model_text)
         else:
             pdir = vlib.write_package(j.root, j.pkg, random.Random(4), cpp=False, python=False, js=False, extra_manifest=j.manifest_extra.rstrip("\n"))
         rc, out, err = vlib.yardl(ybin, pdir, "generate")
@@ -353,6 +570,13 @@ def build_job(ybin, j):
         out_py = _outdir(pdir, man, "python", "outputDir")
         out_cpp = _outdir(pdir, man, "cpp", "sourcesOutputDir")
         res["python"] = _check_python(out_py, j.namespace) if out_py else None
+        if out_py and j.exercise and res["python"]["rc"] == 0:
+            for m in res["python"]["modules"]:
+                x = subprocess.run(["python3-vt", os.path.join(vlib.HARNESS, "py", "pynames_exercise.py"), out_py, m], stdout=subprocess.PIPE, stderr=subprocess.PIPE, timeout=300)
+                if x.returncode != 0:
+                    res["python"] = {"rc": 1, "out": (x.stdout.decode(errors="replace").strip().splitlines() or ["?"])[-1] + "\n" + x.stderr.decode(errors="replace")[-1500:],
+                                     "modules": res["python"]["modules"]}
+                    break
         if out_cpp and j.compile_cpp:
             res["cpp"] = _check_cpp(out_cpp, j)
         res["stage"] = "done"
@@ -441,7 +665,7 @@ def judge(report, j, res, seed):
     if py is not None:
         report.count("python.checked")
         if py["rc"] != 0:
-            report.violation(f"python:{_sig(py['out'])}" + (":" + j.kind if j.kind.startswith(("names:namespace", "init:")) else ""), dict(replay, output=py["out"]), "the generated Python package does not compile / import")
+            report.violation(f"python:{_sig(py['out'])}" + (":" + j.kind if j.kind.startswith(("names:namespace", "init:", "witness:derived-names")) else ""), dict(replay, output=py["out"]), "the generated Python package does not compile / import")
     cpp = res.get("cpp")
     if cpp is not None:
         report.count("cpp.compiled")
@@ -450,7 +674,7 @@ def judge(report, j, res, seed):
             # the first error is about a sequence of bool (std::vector<bool> has no data() and hands out proxies, not bool&)
             report.violation("cpp:vector-of-bool", dict(replay, output=cpp["log"]), "the generated C++ does not compile as C++17")
         elif not cpp["ok"]:
-            report.violation(f"cpp:{_sig(cpp['log'])}" + (":" + j.kind if j.kind.startswith(("names:namespace", "init:")) else ""), dict(replay, output=cpp["log"]), "the generated C++ does not compile as C++17")
+            report.violation(f"cpp:{_sig(cpp['log'])}" + (":" + j.kind if j.kind.startswith(("names:namespace", "init:", "witness:derived-names")) else ""), dict(replay, output=cpp["log"]), "the generated C++ does not compile as C++17")
 
 
 def _sig(text):
